@@ -364,6 +364,7 @@ def run(prog, chk):
         chk.bad("C16.c", esc, "escape-tables-misaligned", "%s:%s" % (esc.file, esc.line), "escapeChars[i] and escapeStrings[i] do not name the same entity: %s" % wrong[:3])
     else:
         chk.bad("C16.c", esc, "escape-tables-differ-in-length", "%s:%s" % (esc.file, esc.line), "escapeChars has %d entries, escapeStrings %s: escapeStrings[escapeChar - escapeChars] indexes out of range / the wrong entity" % (len(chars), nstr))
+    escape_table_reached(prog, chk, "C16.p", esc, sorted(chars))
     # every text/attribute value written goes through escapeString
     raw = []
     for c in q.calls(ts):
@@ -696,3 +697,34 @@ def reference_terminator_window(prog, chk, rid):
                 "parsing is no longer the identity" % bad[1], evals=n_ev)
     else:
         chk.ok(rid, f, "null falls back, every `;` inside the value ends a reference", where, "%d positions of the found `;` evaluated" % n_ev, evals=n_ev)
+
+
+def escape_table_reached(prog, chk, rid, esc, chars):
+    """the writer consults its escape table only for bytes that a cheap range test lets through: each character of the table has to be
+    one of them, otherwise it is copied raw although the table lists it"""
+    chk.rule(rid, "FIN: for every character of Xml::Private::escapeChars the tests that dominate the table lookup in escapeString evaluate "
+                  "to the edge leading to the lookup (the fast path that copies a byte unescaped does not take it)", floor=5)
+    look = [c for c in q.calls(esc) if (esc.nodes[c].get("callee") or "") in ("String::find", "strchr", "String::findOneOf") and
+            "escapeChars" in q.no_casts(esc.r(c))]
+    if not look:
+        raise AnalysisBroken("escapeString: the lookup in escapeChars was not found")
+    c = look[0]
+    args = q.call_args(esc, c)
+    byte = args[-1]
+    keys = {fin.key(esc, byte), q.no_casts(q.xr(esc, byte))}
+    atoms = [a for a in fin.dominating_atoms(esc, esc.node_pos(c)) if a[0] != "case"]
+    for v in chars:
+        val = {k: v for k in keys}
+        off = None
+        for nd, truth in atoms:
+            x = fin.eval_expr(esc, nd, val)
+            if x is not None and bool(x) != bool(truth):
+                off = nd
+                break
+        if off is None:
+            chk.ok(rid, esc, "%r reaches the escape table" % chr(v), esc.where(c), "%d dominating test(s) evaluated for the byte" % len(atoms), evals=len(atoms) + 1)
+        else:
+            chk.bad(rid, esc, "escape-char-bypasses-table:%d" % v, esc.where(off),
+                    "for the byte %r the test `%s` sends escapeString down the path that copies it raw: the table lists it but is never "
+                    "consulted - a text node containing it is written unescaped and the output does not parse back to the same tree" % (
+                        chr(v), q.no_casts(esc.r(esc.strip(off)))[:60]), evals=len(atoms) + 1)
